@@ -176,3 +176,60 @@ def block_shape(tree, skip=()):
 def comment_nodes(tree):
     """texts of the Comment / Directive nodes in source order with their class names"""
     return [(type(n).__name__, str(n)) for n in utils.walk(tree, (F3.Comment, F3.Directive))]
+
+
+def tree_invariants(root):
+    """C10 invariants on a real tree; returns a list of violation strings (empty = well formed)."""
+    bad = []
+    seen = {}
+
+    def kids_of(n):
+        out = []
+
+        def flat(v):
+            if isinstance(v, utils.Base):
+                out.append(v)
+            elif isinstance(v, (list, tuple)):
+                for x in v:
+                    flat(x)
+        flat(n.children)
+        return out
+
+    order = []
+
+    def rec(n, parent):
+        if id(n) in seen:
+            bad.append("node %s %r occurs more than once" % (type(n).__name__, str(n)[:40]))
+            return
+        seen[id(n)] = n
+        order.append(n)
+        if n.parent is not parent:
+            bad.append("%s %r: .parent is %s, it is a child of %s" % (
+                type(n).__name__, str(n)[:40], type(n.parent).__name__ if n.parent is not None else None,
+                type(parent).__name__ if parent is not None else None))
+        if n.get_root() is not root:
+            bad.append("%s %r: get_root() does not return the root" % (type(n).__name__, str(n)[:40]))
+        for k in kids_of(n):
+            rec(k, n)
+    rec(root, None)
+    walked = [n for n in utils.walk(root) if isinstance(n, utils.Base)]
+    if [id(n) for n in walked] != [id(n) for n in order]:
+        missing = [n for n in order if id(n) not in {id(w) for w in walked}]
+        dup = len(walked) - len({id(w) for w in walked})
+        bad.append("walk() does not visit every node exactly once in pre-order (missing %d e.g. %s; duplicates %d)"
+                   % (len(missing), [type(m).__name__ + ":" + str(m)[:20] for m in missing[:3]], dup))
+    # the statements walk() yields (nodes that are lines of a block) print in the order of the regenerated source
+    stm = [n for n in walked if isinstance(n.parent, utils.BlockBase) and not isinstance(n, utils.BlockBase)]
+    lines = ["".join(l.split()) for l in str(root).split("\n")]
+    pos = 0
+    for s in stm:
+        t = s.tofortran() if hasattr(s, "tofortran") else str(s)
+        first = "".join(t.split("\n")[0].split())
+        if not first:
+            continue
+        try:
+            pos = lines.index(first, pos) + 1
+        except ValueError:
+            bad.append("statement %r is not printed in walk order" % t.strip()[:50])
+            break
+    return bad[:8]
